@@ -231,10 +231,11 @@ class Check:
         self.obs.append(Obligation(rule, construct, "NOT-EVALUATED", where, detail, 0))
 
     def req(self, cond, rule, construct, where="", good="", fail="", sites=1):
+        """good / fail may be callables (evaluated lazily, only for the arm taken)."""
         if cond:
-            self.ok(rule, construct, where, good, sites)
+            self.ok(rule, construct, where, good() if callable(good) else good, sites)
         else:
-            self.bad(rule, construct, where, fail, sites)
+            self.bad(rule, construct, where, fail() if callable(fail) else fail, sites)
         return bool(cond)
 
     def need(self, cond, what):
